@@ -41,6 +41,23 @@ else:
     H = 2500 if a.tier == "quick" else 25000
     for h in range(H):
         emit("new")
+        if h % 25 == 7:
+            # many members at once (array growth paths of insert_rect: 4 -> 8 -> 16 -> 32 ...): a staircase /
+            # checkerboard of rectangles that only touch at corners never merges
+            n = rng.choice([9, 13, 14, 17, 20, 33, 40])
+            step = rng.choice([1, 2])
+            cells = [(i * step, (i * step) if rng.random() < 0.7 else ((n - i) * step)) for i in range(n)]
+            rng.shuffle(cells)
+            for (t, l) in cells:
+                emit("add %d %d %d %d" % (t, l, step, step))
+            for _ in range(4):
+                t, l = rng.choice(cells)
+                emit(rng.choice(["contains", "intersects"]) + " %d %d %d %d" % (t, l, step, rng.randint(1, 2 * step)))
+            t, l = rng.choice(cells)
+            emit("sub %d %d %d %d" % (t, max(0, l - 1), step, step + 2))
+            emit("xl %d %d" % (rng.randint(-2, 2), rng.randint(-2, 2)))
+            emit("add %d %d %d %d" % (n * step + 1, 0, 1, 3))
+            continue
         size = rng.choice([4, 5, 7, 7, 10, 30])
         off = rng.choice([0, 0, 0, -3, -50, 1000])
         cur = []   # rectangles added so far (current coordinates)
